@@ -114,6 +114,17 @@ def config(name):
         desc['level_params']['restol'] = -1.0
         desc['step_params']['maxiter'] = 2
         desc['convergence_controllers'] = {RejectFirstAttempt: {}, BasicRestartingNonMPI: {'max_restarts': 3}}
+    elif base == 'status_vars':
+        # a shipped convergence controller that registers level status variables of its own, and a user hook that records
+        # every scalar status variable of the finest level after every iteration (what a user plotting them would do)
+        from pySDC.implementations.convergence_controller_classes.estimate_contraction_factor import EstimateContractionFactor
+
+        P = 2
+        cp['mssdc_jac'] = False
+        cp['hook_class'] = [LogSolution, LogLevelStatus]
+        desc['level_params']['restol'] = -1.0
+        desc['step_params']['maxiter'] = 4
+        desc['convergence_controllers'] = {EstimateContractionFactor: {'e_tol': 1e-7}}
     elif base == 'adaptive':
         from pySDC.implementations.convergence_controller_classes.adaptivity import Adaptivity
 
@@ -129,6 +140,22 @@ def config(name):
 from pySDC.core.convergence_controller import ConvergenceController  # noqa: E402
 
 
+from pySDC.core.hooks import Hooks  # noqa: E402
+
+
+class LogLevelStatus(Hooks):
+    """user hook: every scalar entry of the finest level's status after every iteration goes into the statistics"""
+
+    def post_iteration(self, step, level_number):
+        super().post_iteration(step, level_number)
+        L = step.levels[0]
+        for k, v in sorted(vars(L.status).items()):
+            if k.startswith('_') or k in ('time',):
+                continue
+            if v is None or isinstance(v, (bool, int, float, complex, np.floating, np.integer)):
+                self.add_to_stats(process=step.status.slot, time=L.time, level=L.level_index, iter=step.status.iter, sweep=L.status.sweep, type='status_' + k, value=None if v is None else complex(v) if isinstance(v, complex) else float(v))
+
+
 class RejectFirstAttempt(ConvergenceController):
     """environment: asks for a restart of the first step of a block when it has used up its sweeps for the first time"""
 
@@ -140,7 +167,7 @@ class RejectFirstAttempt(ConvergenceController):
             S.status.restart = True
 
 
-FIXED = ['sdc', 'sdcs', 'lobatto', 'mlsdc', 'mlsdc_equid', 'mlsdc_flex', 'newton_inexact', 'pfasst', 'mssdc', 'rk', 'hooks', 'restarts', 'sdc/random', 'pfasst/random']
+FIXED = ['sdc', 'sdcs', 'lobatto', 'mlsdc', 'mlsdc_equid', 'mlsdc_flex', 'newton_inexact', 'pfasst', 'mssdc', 'rk', 'hooks', 'restarts', 'status_vars', 'sdc/random', 'pfasst/random']
 ALL = FIXED + ['adaptive']
 
 
@@ -403,7 +430,7 @@ def run(rep, tier):
         'continuation time = end time of the last step as logged by the first part (the float the controller itself accumulated)',
         'adaptive configuration only takes part in run() (the re-run / split clauses of the property are for fixed step sizes)',
     ]
-    names = ALL if tier == 'thorough' else ['sdc', 'lobatto', 'mlsdc', 'mlsdc_equid', 'mlsdc_flex', 'newton_inexact', 'pfasst', 'mssdc', 'hooks', 'restarts', 'sdc/random', 'adaptive']
+    names = ALL if tier == 'thorough' else ['sdc', 'lobatto', 'mlsdc', 'mlsdc_equid', 'mlsdc_flex', 'newton_inexact', 'pfasst', 'mssdc', 'hooks', 'restarts', 'status_vars', 'sdc/random', 'adaptive']
     depth = 4 if tier == 'thorough' else 3
     refs = dict(zip(ALL, common.pmap(reference, ALL, nproc=min(8, common.NPROC))))
     # the reference itself must be reproducible: second subprocess for two configurations
